@@ -68,17 +68,20 @@ extern "C" void k_rule_facies()
   double y1 = vf_finite_double(), y2 = vf_finite_double();
   vf_assume(y1 > THRESH_INF && y1 < THRESH_SUP && y2 > THRESH_INF && y2 < THRESH_SUP); // IS_GAUSS_DEF
 
-  // reference: descent
-  int cur = 0, want = -1;
-  bool border = false;
-  for (int depth = 0; depth < NN; depth++)
-  {
-    if (SH[cur].orient == O_IDLE) { want = SH[cur].facies; break; }
-    double y = SH[cur].orient == O_Y1 ? y1 : y2;
-    double t = nd(cur)->_thresh;
-    if (y == t) border = true;
-    cur = y < t ? SH[cur].r1 : SH[cur].r2;
-  }
+  // reference: descent, written out for the fixed shape (T(i) = threshold stored in decision node i)
+#define T(i) (nd(i)->_thresh)
+  int want;
+  bool border;
+#if VF_TREE == 1
+  border = y1 == T(0) || (y1 > T(0) && y2 == T(2));
+  want = y1 < T(0) ? 1 : (y2 < T(2) ? 2 : 3);
+#elif VF_TREE == 2
+  border = y1 == T(0) || (y1 < T(0) && y2 == T(1)) || (y1 > T(0) && y2 == T(4));
+  want = y1 < T(0) ? (y2 < T(1) ? 1 : 2) : (y2 < T(4) ? 3 : 4);
+#elif VF_TREE == 3
+  border = y2 == T(0) || (y2 < T(0) && (y1 == T(1) || (y1 > T(1) && y1 == T(3))));
+  want = y2 < T(0) ? (y1 < T(1) ? 2 : (y1 < T(3) ? 1 : 4)) : 3;
+#endif
   vf_assume(!border);
 
   int got = rule->getFaciesFromGaussian(y1, y2); // REAL
